@@ -520,7 +520,37 @@ Spec == Init /\ [][Next]_vars
 (***************************************************************************)
 (* Properties                                                               *)
 (***************************************************************************)
-Quiescent == \A p \in DOMAIN procs : ~ENABLED Step(p)
+\* CanStep(p): process p can take a step (explicit form of ENABLED Step(p); CanStepIsEnabled checks it)
+CanStep(p) ==
+    LET P == procs[p]
+        nd == Node(P)
+        self1 == IF Len(P.provs) > 0 THEN P.provs[1] ELSE NIL
+        Put(c) == c \in DOMAIN chans /\ (chans[c].closed \/ Len(chans[c].buf) = 0)
+        Get(c) == c = NIL \/ CanTake(c) IN
+    /\ err = <<>>
+    /\ P.st = "run"
+    /\ CASE nd.k \in {"new", "call", "print"} -> TRUE
+         [] nd.k = "split" -> TRUE
+         [] nd.k = "drop"  -> TRUE
+         [] nd.k = "send"  -> IF Res(P, nd.to) = SELF THEN NeedsDup(P) \/ Put(self1)
+                              ELSE Res(P, nd.cont) # SELF \/ NeedsDup(P) \/ Put(Res(P, nd.to))
+         [] nd.k = "sel"   -> IF Res(P, nd.to) = SELF THEN NeedsDup(P) \/ Put(self1)
+                              ELSE Res(P, nd.cont) # SELF \/ NeedsDup(P) \/ Put(Res(P, nd.to))
+         [] nd.k = "cast"  -> IF Res(P, nd.to) = SELF THEN NeedsDup(P) \/ Put(self1)
+                              ELSE Res(P, nd.cont) # SELF \/ NeedsDup(P) \/ Put(Res(P, nd.to))
+         [] nd.k = "close" -> Res(P, nd.from) # SELF \/ NeedsDup(P) \/ Put(self1)
+         [] nd.k = "recv"  -> NeedsDup(P) \/ Get(IF Res(P, nd.from) = SELF THEN self1 ELSE Res(P, nd.from))
+         [] nd.k = "case"  -> NeedsDup(P) \/ Get(IF Res(P, nd.from) = SELF THEN self1 ELSE Res(P, nd.from))
+         [] nd.k = "shift" -> NeedsDup(P) \/ Get(IF Res(P, nd.from) = SELF THEN self1 ELSE Res(P, nd.from))
+         [] nd.k = "wait"  -> Res(P, nd.to) = SELF \/ NeedsDup(P) \/ Get(Res(P, nd.to))
+         [] nd.k = "fwd"   -> \/ Res(P, nd.to) # SELF
+                              \/ PolOf(nd.from) \notin {"pos", "neg"}
+                              \/ (PolOf(nd.from) = "neg" /\ Put(Res(P, nd.from)))
+                              \/ (PolOf(nd.from) = "pos" /\ CanTake(Res(P, nd.from)))
+         [] OTHER -> TRUE
+
+Quiescent == \A p \in DOMAIN procs : ~CanStep(p)
+CanStepIsEnabled == \A p \in DOMAIN procs : CanStep(p) <=> ENABLED Step(p)
 
 \* C01: no runtime protocol error, no Go panic
 NoProtocolError == err = <<>>
@@ -547,7 +577,7 @@ OneListener == \A p, q \in DOMAIN procs : (p # q /\ Listening(p) # NIL /\ ~Needs
 QuiescentClean ==
     (err = <<>> /\ Quiescent) =>
         IF mode = "async" THEN DOMAIN procs = {}
-        ELSE \A p \in DOMAIN procs : procs[p].st = "sent" /\ procs[p].on[1] = 0
+        ELSE \A p \in DOMAIN procs : procs[p].st = "sent"   \* parked senders only, never a blocked receiver
 
 \* C03/C04: the printed multiset at quiescence is the expected one (given with the corpus entry)
 BagOf(s) == [x \in {s[i] : i \in 1..Len(s)} |-> Cardinality({i \in 1..Len(s) : s[i] = x})]
